@@ -14,7 +14,7 @@ META = {
     'level': 'other',
     'rule_text': 'rule instances: A, B tables; the lambda iteration map and the quantities it produces (sigma, alpha, cos 2 sigma_m); '
                  'distance and both azimuth formulas incl. the [0, 360) wrap; coincidence shortcut; exact invariance of every result and of '
-                 'the iteration under a common longitude offset; provenance; iteration cap/threshold; rounding; angle arguments',
+                 'the iteration under a common longitude offset; provenance; iteration cap/threshold; rounding; angle arguments; angular_typecheck dispatch per angle class; conditioning of the angular distance (atan2 form, R-COND); special-input branches decided by case split with numeric witnesses; statelessness with memo-key analysis',
     'explanation': 'Static: vincinv is abstractly evaluated (loop summarised into its transfer function) and compared with the GDA2020 '
                    'technical manual equations; longitude-shift invariance is decided by substituting lon_i -> lon_i + c in every normal '
                    'form and observing that c cancels identically. Decides the named necessary conditions only; accuracy against the exact '
